@@ -336,6 +336,9 @@ func (g *G) plainCtx(v vocab) *HCtx {
 	if g.chance("noCtx", 40) {
 		return nil
 	}
+	if g.chance("emptyCtx", 15) {
+		return &HCtx{} // "context": {} - present but empty (decodes to a Struct without fields)
+	}
 	c := &HCtx{Fields: map[string]any{}}
 	for _, p := range v.params {
 		switch p {
